@@ -75,8 +75,10 @@ func c17Start(c *Ctx, maxv string, tag string) (*c17Proc, error) {
 		return nil, err
 	}
 	bin := filepath.Join(c.Dir, "out", "bin", "cql-proxy")
-	p.cmd = exec.Command(bin, "--contact-points", cluster.ContactPoint(), "--port", fmt.Sprint(cluster.Port), "--bind", p.addr, "--max-protocol-version", maxv,
-		"--heartbeat-interval", "300ms", "--idle-timeout", "3s", "--connect-timeout", "2s")
+	// the address space of the proxy process is capped so that an allocation storm ends in the process's own
+	// "fatal error: runtime: out of memory" (which the oracle sees) instead of the kernel's OOM killer picking a victim
+	p.cmd = exec.Command("sh", "-c", fmt.Sprintf("ulimit -v %d; exec %s --contact-points %s --port %d --bind %s --max-protocol-version %s --heartbeat-interval 300ms --idle-timeout 3s --connect-timeout 2s",
+		c17MemLimitKB, bin, cluster.ContactPoint(), cluster.Port, p.addr, maxv))
 	p.cmd.Stdout = ef
 	p.cmd.Stderr = ef
 	p.cmd.Env = append(os.Environ(), "GOTRACEBACK=all")
@@ -176,6 +178,8 @@ func (p *c17Proc) canary() string {
 	}
 	return ""
 }
+
+const c17MemLimitKB = 6 << 20 // 6 GiB of address space for the proxy under test
 
 var panicRe = regexp.MustCompile(`(?m)^(panic: |fatal error: )`)
 
@@ -333,6 +337,19 @@ func c17ClientInputs(rng *rand.Rand, maxv string, n int, maxFrame int) []hostile
 		add("snappy/random-block", append(hdr9(4, 1, 7, 7, int32(len(body2))), body2...), "startup-snappy")
 	}
 	add("snappy/huge-declared-length", append(hdr9(4, 1, 7, 7, 6), 0xff, 0xff, 0xff, 0xff, 0x0f, 0x00), "startup-snappy")
+	// 5b. tiny frames whose inner length fields claim gigabytes
+	claim := func(kind string, op byte, body []byte, flags byte) {
+		add("length-claim/"+kind, append(hdr9(4, flags, 7, op, int32(len(body))), body...), "startup")
+	}
+	for _, n := range []uint32{1 << 26, 1 << 30, 0x7fffffff} {
+		l := []byte{byte(n >> 24), byte(n >> 16), byte(n >> 8), byte(n)}
+		claim(fmt.Sprintf("query-string=%d", n), 7, append(append([]byte{}, l...), 'S', 'E', 'L'), 0)
+		claim(fmt.Sprintf("prepare-string=%d", n), 9, append(append([]byte{}, l...), 'S', 'E', 'L'), 0)
+		claim(fmt.Sprintf("auth-response-token=%d", n), 0x0f, append(append([]byte{}, l...), 'x'), 0)
+		claim(fmt.Sprintf("custom-payload-value=%d", n), 7, append(append([]byte{0, 1, 0, 1, 'k'}, l...), 'v'), 4)
+		claim(fmt.Sprintf("batch-child-string=%d", n), 0x0d, append(append([]byte{0, 0, 1, 0}, l...), 'I', 'N', 'S'), 0)
+		claim(fmt.Sprintf("query-value=%d", n), 7, append(append([]byte{0, 0, 0, 1, 'x', 0, 1, 1, 0, 1}, l...), 'v'), 0)
+	}
 	// 6. slow-loris and mid-frame drops
 	out = append(out, hostile{Kind: "slow-loris/valid-frame-byte-by-byte", Bytes: valid, Slow: true, Pre: "startup"})
 	out = append(out, hostile{Kind: "slow-loris/half-header-then-silence", Bytes: valid[:5], Keep: true, Pre: "startup"})
@@ -669,6 +686,13 @@ func crashInfoText(rest string) (kind, top, excerpt string) {
 	kind = "panic"
 	if strings.HasPrefix(rest, "fatal error: ") {
 		kind = "fatal"
+	}
+	if first := strings.SplitN(rest, "\n", 2)[0]; strings.HasPrefix(first, "fatal error: ") && (strings.Contains(first, "out of memory") || strings.Contains(first, "cannot allocate memory")) {
+		ex := rest
+		if len(ex) > 3000 {
+			ex = ex[:3000]
+		}
+		return "fatal", "out-of-memory", ex
 	}
 	lines := strings.Split(rest, "\n")
 	msg := lines[0]
